@@ -223,8 +223,8 @@ class Driver:
                         f"{len(cases)} cases")
         out = [json.loads(ln) for ln in lines]
         for o in out:
-            if 'bad' in o:
-                raise Infra(f"model driver rejected a case: {o['bad']}")
+            if '_bad' in o:
+                raise Infra(f"model driver rejected a case: {o['_bad']}")
         return out
 
 
